@@ -18,7 +18,7 @@ from . import crystals as cs
 
 # VERIF_NO_EXCLUDE=R7[,NODEFECT] in the environment switches an exclusion off for one run (used to validate a candidate fix)
 NO_EXCLUDE = [x for x in os.environ.get("VERIF_NO_EXCLUDE", "").split(",") if x]
-EXCLUDE_R7 = "R7" not in NO_EXCLUDE
+EXCLUDE_R7 = False  # R7 fixed in /repo (55581ad): the region is part of the ordinary search
 
 I3 = [[1, 0, 0], [0, 1, 0], [0, 0, 1]]
 UNIMOD = [
